@@ -33,6 +33,7 @@ func vfHostileJSON(tag string) interface{} {
 
 // inbox POST of typ whose member `member` is hostile; stored and remote documents may be hostile too
 func vfC11Inbox(typ string, hostileWorld bool) {
+	vfHangCheck(true)
 	w := vfNewWorld()
 	w.hostile = hostileWorld
 	w.smallWorld = !hostileWorld
@@ -83,6 +84,7 @@ func VfC11_Inbox_Block_World() { vfC11Inbox("Block", true) }
 
 // client POST / Send with a hostile member; the sender's own stored document may lack an inbox
 func vfC11Outbox(typ string, hostileWorld bool) {
+	vfHangCheck(true)
 	w := vfNewWorld()
 	w.hostile = hostileWorld
 	w.smallWorld = !hostileWorld
